@@ -93,6 +93,16 @@ static inline wide c03_mod_p(wide v) {   /* v < 5p */
     if (v >= p) v -= p;
     return v;
 }
+static inline wide c03_mod_p_big(wide v) {   /* any field element of magnitude <= 8 (value < 18p) */
+    wide p = P_(); int i;
+    for (i = 0; i < 18; i++) if (v >= p) v -= p;
+    return v;
+}
+/* same field value (whatever the representation) */
+static inline int c03_same(const secp256k1_fe *a, const secp256k1_fe *b) {   /* both of magnitude <= 2: |a - b| < 5p */
+    wide x = fval(a), y = fval(b), p = P_(), hi = x > y ? x : y, lo = x > y ? y : x, d = hi - lo;
+    return d == 0 || d == p || d == 2 * p || d == 3 * p || d == 4 * p;
+}
 static inline int c03_y_parity_ok(const secp256k1_fe *y, int odd) {
     wide m = c03_mod_p(fval(y));
     return m == 0 || (int)(m & 1) == odd;
